@@ -1,5 +1,6 @@
 import ClusterVerif.Spec.C17
 import Driver.PinParse
+import Driver.C17Fault
 namespace CV.C17
 open CV CV.Parse CV.PinParse
 
@@ -119,6 +120,9 @@ def armOf (k : Case) : String :=
     | .leave j x => (if s.members == [j] then "leave-last" else "leave") ++ r x
 
 def answer (ws : List String) : String :=
+  if ws.head? == some "f" then answerFault ws.tail else
+  if ws.head? == some "x" then answerConc ws.tail else
+  if ws.head? == some "j" then answerJoin ws.tail else
   match parseCase ws with
   | none => "bad-case parse"
   | some k =>
